@@ -593,7 +593,12 @@ struct Visitor : RecursiveASTVisitor<Visitor> {
     return true;
   }
 
-  bool VisitFunctionDecl(FunctionDecl *F) {
+  bool VisitLambdaExpr(LambdaExpr *L) {
+    if (auto *M = L->getCallOperator()) emitFunction(M);
+    return true;
+  }
+  bool VisitFunctionDecl(FunctionDecl *F) { return emitFunction(F); }
+  bool emitFunction(FunctionDecl *F) {
     if (!F->doesThisDeclarationHaveABody()) return true;
     if (!D.inRoots(F->getLocation())) return true;
     std::string U = D.usr(F);
